@@ -316,6 +316,10 @@ pub struct WriteOpts {
 	pub datum_layout: Layout,
 	/// emit blocks that hold zero objects
 	pub empty_blocks: bool,
+	/// a run of this many consecutive blocks holding zero objects, after the first data block (or alone, in a file
+	/// without values)
+	#[serde(default)]
+	pub empty_run: u32,
 }
 
 fn put_long(out: &mut Vec<u8>, v: i64) {
@@ -370,6 +374,18 @@ pub fn write(
 	let mut i = 0;
 	let mut pi = 0;
 	let mut layout = opts.datum_layout;
+	let mut run_emitted = false;
+	let emit_empty_run = |out: &mut Vec<u8>| {
+		if opts.empty_run > 0 {
+			let payload = compress(codec, &[]);
+			for _ in 0..opts.empty_run {
+				put_long(out, 0);
+				put_long(out, payload.len() as i64);
+				out.extend_from_slice(&payload);
+				out.extend_from_slice(&sync);
+			}
+		}
+	};
 	while i < values.len() {
 		let n = if opts.partition.is_empty() {
 			values.len() - i
@@ -397,6 +413,13 @@ pub fn write(
 		out.extend_from_slice(&payload);
 		out.extend_from_slice(&sync);
 		i += n;
+		if !run_emitted {
+			run_emitted = true;
+			emit_empty_run(&mut out);
+		}
+	}
+	if !run_emitted {
+		emit_empty_run(&mut out);
 	}
 	Ok(out)
 }
